@@ -46,6 +46,7 @@ func run(r *core.R) {
 	weights[opIPsByHandle] = src.Intn(3, "w_ipsbyh")
 	capAsserted := w.maxBlocks > 0
 	callersPerHost := src.Range(1, 2, "callers_per_host")
+	w.capAsserted = capAsserted
 	if capAsserted {
 		// the per-host cap is promised for serialised callers that go through auto-assignment only (DESIGN.md C20)
 		weights[opAssignIP], weights[opClaimAffinity], weights[opEnsureBlock] = 0, 0, 0
@@ -159,28 +160,8 @@ func run(r *core.R) {
 	if r.Armed("C19") {
 		w.or.handleAgreement()
 	}
-	if r.Armed("C20") && capAsserted {
-		perHost := map[string]int{}
-		for _, k := range sortedAffKeys(w.or.aff) {
-			if w.or.affState(k) != "" {
-				perHost[k[:indexByte(k, '|')]]++
-			}
-		}
-		for _, h := range w.hosts {
-			r.Check("blocks_per_host_cap", perHost["host:"+h] <= w.maxBlocks, "host %s holds %d block affinities; the configured cap is %d", h, perHost["host:"+h], w.maxBlocks)
-		}
-	}
 	w.liveness()
 	r.Fingerprint(w.or.fingerprint())
-}
-
-func indexByte(s string, c byte) int {
-	for i := 0; i < len(s); i++ {
-		if s[i] == c {
-			return i
-		}
-	}
-	return len(s)
 }
 
 // liveness: once faults have stopped, a fresh request on a surviving host succeeds if an
